@@ -677,6 +677,9 @@ package classifier
 //@   loop 7 invariant forall k int :: 0 <= k && k < len(out) ==> out[k].EndLine <= 1 + nlSeen
 //@   props C10 C03 C08 C09 C04 C02 C06 C01
 //@
+//@ // readyClassifier: what callers of Match/MatchFrom must provide
+//@ spec readyClassifier(c *Classifier) bool = wfClassifier(c) && 0.0 <= c.threshold && c.threshold <= 1.0
+//@
 //@ // C03 at the public API: what match() establishes is what callers of
 //@ // Match/MatchFrom get.
 //@ func (*Classifier).MatchFrom
